@@ -1839,6 +1839,9 @@ class Evaluator:
             base = self.ref(r[1])
             return self.getattr_value(base, r[2])
         if r[0] == "classattr":
+            st8 = self._class_creation_state(r[1], r[2])
+            if st8 is not None and r[3] in st8:
+                return st8[r[3]]
             _meths, assigns = self.class_members(r[1].name, r[2])
             for mn, st in assigns:
                 names = [t.id for t in st.targets if isinstance(t, ast.Name)] if isinstance(st, ast.Assign) else ([st.target.id] if isinstance(st.target, ast.Name) else [])
@@ -1883,6 +1886,43 @@ class Evaluator:
         return tm.unk("ref")
 
     _ENUM_BASES = {"Enum", "IntEnum", "IntFlag", "Flag", "StrEnum"}
+
+    def _class_creation_state(self, module, cls):
+        """Class-level names of `cls` as they are once the module is imported, when `cls` defines `__init_subclass__`: the hook
+        runs at the creation of every subclass (in definition order, with the class keywords), and registries kept on the base
+        class (`Base.registry = Base.registry + (cls,)`, `Base._by_kind[kind] = cls`) are filled by it. None without a hook."""
+        fi = module.classes.get(cls, {}).get("__init_subclass__")
+        if fi is None:
+            return None
+        cache = self.__dict__.setdefault("_class_state_cache", {})
+        key = (module.name, cls)
+        if key in cache:
+            return cache[key]
+        cache[key] = None  # (re-entrant reads during the replay see the class body's own values through the environment)
+        cnode = module.classnodes.get(cls)
+        f0 = Frame(self, module.name, None, Summary(None), 0)
+        env = {}
+        for st in cnode.body:
+            if isinstance(st, ast.Assign) and len(st.targets) == 1 and isinstance(st.targets[0], ast.Name):
+                env[cls + "." + st.targets[0].id] = self.expr(st.value, f0)
+            elif isinstance(st, ast.AnnAssign) and isinstance(st.target, ast.Name) and st.value is not None:
+                env[cls + "." + st.target.id] = self.expr(st.value, f0)
+        subs = sorted(((cn2.lineno, n2, cn2) for n2, cn2 in module.classnodes.items() if n2 != cls and self._is_base_of((module.name, cls), (module.name, n2))), key=lambda x: x[0])
+        pname = fi.params()[0] if fi.params() else "cls"
+        for _ln, n2, cn2 in subs:
+            args = {pname: T("classref", (module.name + "." + n2,))}
+            for k in cn2.keywords:
+                if k.arg and k.arg != "metaclass":
+                    args[k.arg] = self.expr(k.value, f0)
+            try:
+                sub = self.run(fi, args, depth=1, use_defaults=True, closure_env=env)
+            except AnalysisError:
+                cache[key] = None
+                return None
+            env = {k_: v_ for k_, v_ in sub.env.items() if k_.startswith(cls + ".")}
+        out = {k_[len(cls) + 1:]: v_ for k_, v_ in env.items()}
+        cache[key] = out
+        return out
 
     def enum_iter(self, v):
         """The members an Enum class yields when iterated (aliases -- later names of an earlier value -- left out); None otherwise."""
@@ -1931,6 +1971,14 @@ class Evaluator:
         if parts and ".".join(parts) in fr.env:
             return fr.env[".".join(parts)]
         base = self.expr(e.value, fr)
+        if isinstance(base, (_EnumInt, _EnumStr)) or (isinstance(base, _Obj) and "_name_" in base.fields):
+            # a property / attribute of an enum MEMBER, evaluated on constants: decided here, it raises nothing (for try bodies)
+            c0_, h0_, x0_ = len(fr.summary.calls), len(fr.summary.hazards), len(fr.summary.exits)
+            r_ = self.getattr_value(base, e.attr)
+            if tm.is_conc(r_) and not isinstance(r_, T) and len(fr.summary.hazards) == h0_ and len(fr.summary.exits) == x0_:
+                del fr.summary.calls[c0_:]
+                self.__dict__.setdefault("_inert_calls", set()).add(id(e))
+            return r_
         return self.getattr_value(base, e.attr)
 
     def class_members(self, modname, cls):
@@ -2568,6 +2616,8 @@ class Evaluator:
         for a in e.args:
             if isinstance(a, ast.Starred):
                 v = self.expr(a.value, fr)
+                if isinstance(v, _Obj) and v.tuple_like:
+                    v = tuple(v.fields.values())  # f(*record): a NamedTuple unpacks into its fields
                 if isinstance(v, (tuple, list)):
                     pos.extend(v)
                 else:
@@ -2799,6 +2849,38 @@ class Evaluator:
                     if e is not None:
                         self.__dict__.setdefault("_inert_calls", set()).add(id(e))  # decided on constants: ValueError and nothing else
                     return T("raise", ("ValueError",))
+        if bases & self._ENUM_BASES and len(pos) == 1 and not kw and isinstance(pos[0], T) and tm.tyof(pos[0]) in (tm.INT, tm.ANY, tm.STR, tm.BYTES) and fr is not None:
+            # Enum lookup by a value that is not known: the member whose value it equals; when it equals none the lookup raises
+            # (ValueError, or what a `_missing_` that does nothing but raise says) -- an exit of the function under "equals none"
+            mems = self.enum_members(modname, cls)
+            exc_ = "ValueError"
+            simple = True
+            if "_missing_" in meths:
+                body_ = [b for b in meths["_missing_"].node.body if not (isinstance(b, ast.Expr) and isinstance(b.value, ast.Constant))]
+                if len(body_) == 1 and isinstance(body_[0], ast.Raise) and body_[0].exc is not None:
+                    x_ = body_[0].exc
+                    exc_ = ".".join(dotted_parts(x_.func if isinstance(x_, ast.Call) else x_) or ["?"])
+                elif not (len(body_) == 1 and isinstance(body_[0], ast.Return) and (body_[0].value is None or (isinstance(body_[0].value, ast.Constant) and body_[0].value.value is None))):
+                    simple = False
+            vals_ = []
+            for _n, mv in (mems or []):
+                v_ = mv.fields.get("value") if isinstance(mv, _Obj) else mv
+                if not tm.is_conc(v_) or isinstance(v_, (T, list, dict)) or any(type(v_) == type(u_) and v_ == u_ for u_, _m in vals_):
+                    continue
+                vals_.append((v_, mv))
+            if mems and simple and vals_ and len(vals_) <= 16:
+                eqs = [tm.cmp("eq", pos[0], int(v_) if isinstance(v_, _EnumInt) else (str(v_) if isinstance(v_, _EnumStr) else v_)) for v_, _m in vals_]
+                anyc = self.decide_in(tm.lor(eqs), fr) if hasattr(self, "decide_in") else tm.lor(eqs)
+                if anyc is not True:
+                    f2 = fr.fork(tm.lnot(anyc))
+                    f2.summary.exits.append(Exit(f2.guard, "raise", None, e, fr.fi.qualname if fr.fi else "<module>", exc=exc_, facts=fr.facts))
+                    if anyc is False:
+                        return T("raise", (exc_,))
+                    fr.facts.append(anyc)
+                out_ = vals_[-1][1]
+                for c_, (_v, mv) in reversed(list(zip(eqs[:-1], vals_[:-1]))):
+                    out_ = tm.ite(c_, mv, out_)
+                return out_
         if "NamedTuple" in bases or "dataclass" in decos:
             names, defaults, noinit = [], {}, []
             for mn, st in assigns:
@@ -3289,6 +3371,17 @@ class Evaluator:
             pos = [list(self.enum_iter(pos[0]))] + list(pos[1:])  # an Enum class used as an iterable: its members
         if len(pos) == 2 and isinstance(pos[1], T) and pos[1].op == "classref" and n in ("map", "filter") and self.enum_iter(pos[1]) is not None:
             pos = [pos[0], list(self.enum_iter(pos[1]))]
+        if len(pos) == 1 and not kw and isinstance(pos[0], T) and pos[0].op == "ite" and n in ("bytes", "str", "repr", "format", "len", "bool", "hash") and \
+                all(isinstance(a_, (_EnumInt, _EnumStr)) and ("__%s__" % n) in self.class_members(a_.modname, a_.cls)[0] for a_ in pos[0].args[1:]):
+            x_, y_ = self.extern(name, [pos[0].args[1]], kw, e, fr), self.extern(name, [pos[0].args[2]], kw, e, fr)
+            return x_ if tm.veq(x_, y_) else tm.ite(pos[0].args[0], x_, y_)
+        if len(pos) == 1 and not kw and isinstance(pos[0], (_EnumInt, _EnumStr)) and n in ("bytes", "str", "repr", "format", "len", "bool", "hash"):
+            # an enum member whose class defines the special method itself (bytes(Prefix.EVEN) -> Prefix.__bytes__)
+            m_ = self.class_members(pos[0].modname, pos[0].cls)[0].get("__%s__" % n)
+            if m_ is not None:
+                return self.call_fn(m_, [pos[0]], {}, e, fr)
+            if isinstance(pos[0], _EnumInt) and n in ("str", "repr", "format"):
+                raise AnalysisError("str() of an IntEnum member depends on the Python version: not modelled")
         if len(pos) == 1 and not kw and isinstance(pos[0], _Obj) and pos[0].tuple_like and n in ("list", "tuple", "len", "iter", "reversed") and \
                 not ({"__iter__", "__len__", "__reversed__"} & set(self.class_members(pos[0].modname, pos[0].cls)[0])):
             vals_ = list(pos[0].fields.values())  # a NamedTuple is the tuple of its fields
@@ -3574,7 +3667,8 @@ class Evaluator:
                     return bytes(seq0)
                 except ValueError:
                     pass
-            if seq0 is not None and seq0 and all(isinstance(x, int) or tm.tyof(x) == tm.INT for x in seq0):
+            if seq0 is not None and seq0 and all(isinstance(x, int) or tm.tyof(x) == tm.INT or
+                                                 (isinstance(x, T) and x.op == "ite" and all(isinstance(a_, int) and not isinstance(a_, bool) for a_ in x.args[1:])) for x in seq0):
                 return tm.cat([tm.i2b(x, 1, "big") if isinstance(x, T) else bytes([x]) for x in seq0])  # bytes([x]) is the one-byte encoding of x
             if isinstance(a0, int):
                 return bytes(a0)
